@@ -358,6 +358,19 @@ func TestC14(t *testing.T) {
 			}
 		}
 	}
+	// ---- part 2c: the spill itself fails ----
+	for _, side := range []string{"response", "request"} {
+		for _, total := range []int{65, 3000} {
+			for _, chunked := range []bool{false, true} {
+				desc := map[string]any{"part": "spill-cannot-be-created", "side": side, "body": total, "chunked": chunked, "buffer_memory": 64}
+				k++
+				if !run.Mine(idx+n+k, desc) {
+					continue
+				}
+				synctest.Test(t, func(t *testing.T) { c14SpillFault(t, run, desc, side, total, chunked) })
+			}
+		}
+	}
 	if desc := map[string]any{"part": "real-binary-dropped-connection"}; run.Mine(1<<20, desc) {
 		c14RealDrop(t, run, desc)
 	}
@@ -447,6 +460,105 @@ func c14Drained(t *testing.T, run *Run, desc any, cmd string, first, total int) 
 		}
 	}
 	run.Class(fmt.Sprintf("e2e|upload-overtaken|%s|first=%d|total=%d|status=%d|delivered=%d", cmd, first, total, status, len(got)))
+}
+
+// c14SpillFault: the body is larger than buffer-memory and the temporary file cannot be created (TMPDIR
+// names a directory that does not exist). The request may fail; what may not happen is a body that
+// is not the sender's presented as if it were: a client that is answered 200 has the target's exact
+// body (response side), a target that is contacted has the client's exact body (request side).
+func c14SpillFault(t *testing.T, run *Run, desc any, side string, total int, chunked bool) {
+	good := t.TempDir()
+	old := os.Getenv("TMPDIR")
+	os.Setenv("TMPDIR", good)
+	defer os.Setenv("TMPDIR", old)
+	w := NewWorld(t, WorldOpt{})
+	defer w.Close()
+	w.MaxClientLife = 30 * time.Second
+	run.Eval()
+	body := c13Bytes("c14fault", total, total)
+	var mu sync.Mutex
+	var got []*RawMsg
+	w.AddTarget("sf:80", nil).RawServe = func(ft *FakeTarget, c net.Conn) {
+		br := bufio.NewReader(c)
+		for {
+			m, err := readRawRequest(br)
+			if err != nil {
+				return
+			}
+			mu.Lock()
+			got = append(got, m)
+			mu.Unlock()
+			if !w.sleep(OffTarget) {
+				return
+			}
+			if side == "request" {
+				fmt.Fprintf(c, "HTTP/1.1 200 OK\r\nContent-Length: 2\r\n\r\nok")
+				continue
+			}
+			if chunked {
+				fmt.Fprintf(c, "HTTP/1.1 200 OK\r\nTransfer-Encoding: chunked\r\n\r\n")
+				for lo := 0; lo < len(body); lo += 50 {
+					hi := min(lo+50, len(body))
+					fmt.Fprintf(c, "%x\r\n%s\r\n", hi-lo, body[lo:hi])
+				}
+				fmt.Fprintf(c, "0\r\n\r\n")
+			} else {
+				fmt.Fprintf(c, "HTTP/1.1 200 OK\r\nContent-Length: %d\r\n\r\n%s", len(body), body)
+			}
+		}
+	}
+	to := DefTO
+	to.BufferRequests, to.BufferResponses, to.MaxMemoryBufferSize = side == "request", side == "response", 64
+	if c := w.Deploy("sf", []string{"sf:80"}, server.ServiceOptions{Hosts: []string{"sf.example"}}, to, 5*time.Second, time.Second); c.Err != "" {
+		run.Inconclusive("setup deploy: %s", c.Err)
+		return
+	}
+	os.Setenv("TMPDIR", filepath.Join(good, "no-such-directory"))
+	conn, err := w.connect(false, "sf.example")
+	if err != nil {
+		run.Inconclusive("connect: %v", err)
+		return
+	}
+	defer conn.Close()
+	if side == "request" {
+		if chunked {
+			fmt.Fprintf(conn, "POST /u HTTP/1.1\r\nHost: sf.example\r\nTransfer-Encoding: chunked\r\nConnection: close\r\n\r\n")
+			for lo := 0; lo < len(body); lo += 50 {
+				hi := min(lo+50, len(body))
+				fmt.Fprintf(conn, "%x\r\n%s\r\n", hi-lo, body[lo:hi])
+			}
+			fmt.Fprintf(conn, "0\r\n\r\n")
+		} else {
+			fmt.Fprintf(conn, "POST /u HTTP/1.1\r\nHost: sf.example\r\nContent-Length: %d\r\nConnection: close\r\n\r\n%s", len(body), body)
+		}
+	} else {
+		fmt.Fprintf(conn, "GET /d HTTP/1.1\r\nHost: sf.example\r\nConnection: close\r\n\r\n")
+	}
+	status, complete := -1, false
+	var respBody []byte
+	if resp, rerr := readRawResponse(bufio.NewReader(conn), "GET"); rerr == nil {
+		status, complete, respBody = resp.Status(), resp.BodyErr == "", resp.Body
+	}
+	conn.Close()
+	time.Sleep(3 * time.Second)
+	mu.Lock()
+	defer mu.Unlock()
+	fail := func(sig, format string, a ...any) {
+		run.Violate("e2e:"+sig, fmt.Sprintf(format, a...), desc, func() []string { return w.Trace(60) })
+	}
+	if side == "response" && status == 200 && complete && !bytes.Equal(respBody, body) {
+		fail("response-body-differs:spill-cannot-be-created", "the temporary file for a %d-byte response could not be created (buffer-memory 64); the client was answered 200 with a complete-looking body of %d bytes that is not the target's", total, len(respBody))
+		return
+	}
+	if side == "request" {
+		for _, m := range got {
+			if strings.HasPrefix(m.Line, "POST ") && (!bytes.Equal(m.Body, body) || m.BodyErr != "") {
+				fail("request-body-differs:spill-cannot-be-created", "the temporary file for a %d-byte request body could not be created (buffer-memory 64); the target was contacted with %d body bytes that are not the client's (client answered %d)", total, len(m.Body), status)
+				return
+			}
+		}
+	}
+	run.Class(fmt.Sprintf("e2e|spill-fault|%s|total=%d|chunked=%v|status=%d|complete=%v|delivered=%d", side, total, chunked, status, complete, len(got)))
 }
 
 // c14RealDrop: the built binary (compiled with the repository's own Go toolchain - the standard
